@@ -198,10 +198,10 @@ func (op *pipelineOp) exec(fm *Frame) Exception {
 				}
 			}
 		}()
-	verifTraceC18("wait-ret", &wg, excs)
 		return nil
 	}
 	wg.Wait()
+	verifTraceC18("wait-ret", &wg, excs)
 	VerifTrace(fm, "pipe.end", vpid, fm.background)
 	return fm.errorp(op, MakePipelineError(excs))
 }
